@@ -60,6 +60,8 @@ def share_sig(prop, f):
     obs = SERVED.get(observed, observed)
     if expect.startswith("refused") and obs != "served":
         obs = "answered"      # the chain was accepted (404 / 5xx / empty file) although nothing was disclosed
+    if sstate in ("undeleted", "unexpired"):
+        sstate = "live"       # valid shares; the detailed state is in the description (keeps signatures stable across seeds)
     return "%s/share-%s/%s/%s:%s/%s->%s" % (prop, state, action, sstate, pclass, expect, obs)
 
 
@@ -90,7 +92,7 @@ def validate_share(ctx, tracefile, leg):
             " ; explained by deviation %s" % ",".join(devs) if devs else ""))
         replay = {"property": ctx.prop, "kind": "share", "signature": sig, "leg": leg, "states": [wl["state"]],
                   "world": {"name": wl["name"], "items": wl["items"]},
-                  "reqs": [{"w": 1, "chain": ev["chain"], "method": ev["method"], "asm": ev["asm"], "served": ev["gserved"]}]}
+                  "reqs": [{"w": 1, "chain": ev["chain"], "method": ev["method"], "asm": ev["asm"], "served": ev["gserved"], "gen": ev["gen"]}]}
         found.append((sig, what, replay))
     nsec = sum(1 for e in evs if e["ev"] == "world")
     return found, nsec, len(evs) - nsec, evs
@@ -134,11 +136,12 @@ def matrix_sig(prop, f):
     return "%s/matrix/%s/%s:%s/%s->%s" % (prop, action, htype, sub, expect, observed)
 
 
-def validate_matrix(ctx, tracefile, hl, auth):
+def validate_matrix(ctx, tracefile, hl, auth, whole=True):
     r = ctx.tlc_trace("Trace_AuthMatrix", "Trace_AuthMatrix.cfg", tracefile)
     if not r["accepted"]:
         raise vlib.MachineryError("matrix trace %s not fully consumed: %s" % (tracefile, r["out"][-1500:]))
-    bad = other_tags(r["out"], ["UNKNOWN", "VACUOUS"])
+    # a replay asks single cells: the per-server anti-vacuity condition applies to whole matrices only
+    bad = other_tags(r["out"], ["UNKNOWN", "VACUOUS"] if whole else ["UNKNOWN"])
     if bad:
         raise vlib.MachineryError("matrix %s/%s: %s" % (hl, auth, bad[:3]))
     evs = vlib.read_ndjson(tracefile)
@@ -158,12 +161,12 @@ def validate_matrix(ctx, tracefile, hl, auth):
     return found, evs
 
 
-def matrix_job(ctx, drv, hl, auth, cellsfile, tag):
+def matrix_job(ctx, drv, hl, auth, cellsfile, tag, whole=True):
     out = ctx.path("matrix_%s.ndjson" % tag)
     if not drive(ctx, [drv, "-mode", "matrix", "-secring", SECRING, "-out", out, "-hl", hl, "-auth", auth, "-cells", cellsfile],
                  "matrix"):
         return [], []
-    return validate_matrix(ctx, out, hl, auth)
+    return validate_matrix(ctx, out, hl, auth, whole)
 
 
 def negative_matrix(ctx, evs):
@@ -199,7 +202,7 @@ def run(ctx, replay):
         elif rp.get("kind") == "matrix":
             cf = ctx.path("cells_replay.json")
             json.dump(rp["cells"], open(cf, "w"))
-            found, evs = matrix_job(ctx, drv, rp["hl"], rp["auth"], cf, "replay")
+            found, evs = matrix_job(ctx, drv, rp["hl"], rp["auth"], cf, "replay", whole=False)
             ctx.cov["traces_validated_against_impl"] += 1
             ctx.cov["evaluations"] += len(evs)
         else:
@@ -243,7 +246,7 @@ def run(ctx, replay):
     klass = {}
     for c in chains:
         for v in c["variants"]:
-            per_world[c["w"]].append({"w": 1, "chain": c["chain"], "method": v["method"], "asm": v["asm"], "served": c["served"]})
+            per_world[c["w"]].append({"w": 1, "chain": c["chain"], "method": v["method"], "asm": v["asm"], "served": c["served"], "gen": True})
         klass[(c["w"], tuple(c["chain"]))] = (c["sstate"], c["pclass"])
     cellsfile = ctx.path("cells.json")
     json.dump(cells, open(cellsfile, "w"))
